@@ -31,10 +31,11 @@ ASSUMPTIONS = [
 ]
 MIN_NONTRIVIAL = {'quick': 20000, 'thorough': 200000}
 REQUIRED_MONITORS = ['contract:trs_to_dict', 'construct', 'construct:ocr_scrub',
+                     'construct:upper-default', 'construct:static+setter',
                      'wrap',
                      'wrap-nonstandard', 'eq-hash', 'tract-trs']
 
-ALPHABET = "0123456789nsewNSEWxXzZ_ -/:."
+ALPHABET = "0123456789nsewNSEWxXzZ_ -/:." + "\uff11\u0663\u00b2\u0967"   # + non-ASCII digits
 
 
 def plan(tier, seed):
@@ -94,14 +95,20 @@ def _check_construct(ctx, rep, pytrs, t, ns, r, ew, s, tenc, renc, senc,
         saved = (MC.default_ns, MC.default_ew)
         try:
             kw = {}
+            # The default directions may legally be spelt in upper case
+            # ('N', 'S', 'E', 'W'); the result is lower-case all the same.
+            up = (t * 7 + r * 3 + s) % 4 == 1
+            dns, dew = (ns.upper(), ew.upper()) if up else (ns, ew)
+            if up and channel in ('arg', 'master'):
+                ctx.hit('construct:upper-default')
             if channel == 'arg':
                 # Defaults passed as arguments; MasterConfig set to the
                 # opposite so that a wrong source is visible.
-                kw = {'default_ns': ns, 'default_ew': ew}
+                kw = {'default_ns': dns, 'default_ew': dew}
                 MC.default_ns = 's' if ns == 'n' else 'n'
                 MC.default_ew = 'e' if ew == 'w' else 'w'
             elif channel == 'master':
-                MC.default_ns, MC.default_ew = ns, ew
+                MC.default_ns, MC.default_ew = dns, dew
             elif channel == 'explicit-vs-default':
                 # Explicit letters must win over contrary defaults.
                 if not (texp and rexp):
@@ -122,6 +129,20 @@ def _check_construct(ctx, rep, pytrs, t, ns, r, ew, s, tenc, renc, senc,
                         f" but with ocr_scrub=True -> {o2.trs!r}",
                         dedup=f"{tenc}|{renc}")
             tr = pytrs.Tract.from_twprgesec('x', tv, rv, sv, **kw)
+            # The two other documented ways to build the string: the static
+            # builder and the setter's return value.
+            ctx.hit('construct:static+setter')
+            direct = pytrs.TRS.construct_trs(tv, rv, sv, **kw)
+            setter_obj = pytrs.TRS()
+            returned = setter_obj.set_twprgesec(tv, rv, sv, **kw)
+            for label, val in (('TRS.construct_trs', direct),
+                               ('set_twprgesec (returned)', returned),
+                               ('set_twprgesec (.trs)', setter_obj.trs)):
+                if val != expected:
+                    ctx.violation(
+                        'construct-not-canonical', case,
+                        f"{label}({tv!r},{rv!r},{sv!r},{kw}) -> {val!r}, "
+                        f"expected {expected!r}", dedup=label)
         finally:
             MC.default_ns, MC.default_ew = saved
         if got != expected:
